@@ -237,59 +237,61 @@ def step_level(rep, rng, tier):
     answered step the equation must hold for the dt the step REPORTS (the one time advances by)."""
     import tempfile
     from . import meshes, runs
-    dev = meshes.make_device(rng, holes=0, terminals=0, max_edge_length=1.0, probe_points=False, gamma=10.0)
-
-    def eps(r):
-        return -1.0 if r[0] < 0 else 1.0
-
     stats = {"steps": 0, "retried_steps": 0, "refusals": 0}
-    for dt0 in ([50.0, 8.0] if tier == "quick" else [50.0, 8.0, 200.0, 3.0]):
-        refused = []
+    # the configured gamma / u of the layer are what the documented z, w use: gamma = 0 (plain TDGL) and an unusual u too
+    for gam_, u_ in ((10.0, 5.79), (0.0, 5.79), (3.0, 0.7)):
+        dev = meshes.make_device(rng, holes=0, terminals=0, max_edge_length=1.0, probe_points=False, gamma=gam_, u=u_)
 
-        def on_step(solver, state, kw, res, refused=refused):
-            psi, mu, dt = np.asarray(kw["psi"]), np.asarray(kw["mu"]), float(res.dt)
-            g, u = float(solver.gamma), float(solver.u)
-            a2 = np.abs(psi) ** 2
-            U = np.exp(-1j * mu * dt)
-            z = (g ** 2 / 2) * U * psi
-            lap = solver.operators.psi_laplacian @ psi
-            w = z * a2 + U * (psi + dt / u * np.sqrt(1 + g ** 2 * a2) * ((solver.epsilon - a2) * psi + lap))
-            p = np.asarray(res.psi)
-            resid = np.abs(p + z * np.abs(p) ** 2 - w)
-            scale = np.abs(w) + np.abs(z) * np.abs(p) ** 2 + 1e-300
-            stats["steps"] += 1
-            nref = len(refused)
-            refused.clear()
-            stats["refusals"] += nref
-            stats["retried_steps"] += 1 if nref else 0
-            if float(np.max(resid / scale)) > 1e-8:
-                rep.violation("answered step does not satisfy psi' + z|psi'|^2 = w for the time step it reports "
-                              f"(relative residual {float(np.max(resid / scale)):.2e})",
-                              {"dt_init": dt0, "step": state["step"], "reported_dt": dt, "refusals_in_step": nref})
+        def eps(r):
+            return -1.0 if r[0] < 0 else 1.0
 
-        with tempfile.TemporaryDirectory(prefix="pyt_c02_") as td:
-            opts = runs.make_options(td, solve_time=3 * dt0, dt_init=dt0, dt_max=dt0 * (1 + 1e-9), adaptive=True,
-                                     save_every=100)
-            from tdgl.solver.solver import TDGLSolver
-            solver = TDGLSolver(dev, opts, disorder_epsilon=eps)
-            orig_static = TDGLSolver.solve_for_psi_squared
+        for dt0 in ([50.0, 8.0] if tier == "quick" else [50.0, 8.0, 200.0, 3.0]):
+            refused = []
 
-            def counting(**kw):
-                out = orig_static(**kw)
-                if out is None:
-                    refused.append(kw["dt"])
-                return out
+            def on_step(solver, state, kw, res, refused=refused):
+                psi, mu, dt = np.asarray(kw["psi"]), np.asarray(kw["mu"]), float(res.dt)
+                g, u = float(dev.layer.gamma), float(dev.layer.u)           # the configured values, not the solver's copy
+                a2 = np.abs(psi) ** 2
+                U = np.exp(-1j * mu * dt)
+                z = (g ** 2 / 2) * U * psi
+                lap = solver.operators.psi_laplacian @ psi
+                w = z * a2 + U * (psi + dt / u * np.sqrt(1 + g ** 2 * a2) * ((solver.epsilon - a2) * psi + lap))
+                p = np.asarray(res.psi)
+                resid = np.abs(p + z * np.abs(p) ** 2 - w)
+                scale = np.abs(w) + np.abs(z) * np.abs(p) ** 2 + 1e-300
+                stats["steps"] += 1
+                nref = len(refused)
+                refused.clear()
+                stats["refusals"] += nref
+                stats["retried_steps"] += 1 if nref else 0
+                if float(np.max(resid / scale)) > 1e-8:
+                    rep.violation("answered step does not satisfy psi' + z|psi'|^2 = w for the time step it reports "
+                                  f"(relative residual {float(np.max(resid / scale)):.2e})",
+                                  {"dt_init": dt0, "step": state["step"], "reported_dt": dt, "refusals_in_step": nref})
 
-            solver.solve_for_psi_squared = counting
-            orig_update = solver.update
+            with tempfile.TemporaryDirectory(prefix="pyt_c02_") as td:
+                opts = runs.make_options(td, solve_time=3 * dt0, dt_init=dt0, dt_max=dt0 * (1 + 1e-9), adaptive=True,
+                                         save_every=100)
+                from tdgl.solver.solver import TDGLSolver
+                solver = TDGLSolver(dev, opts, disorder_epsilon=eps)
+                orig_static = TDGLSolver.solve_for_psi_squared
 
-            def wrapped(state, running_state, dt, **kwargs):
-                res = orig_update(state, running_state, dt, **kwargs)
-                on_step(solver, dict(state), kwargs, res)
-                return res
+                def counting(**kw):
+                    out = orig_static(**kw)
+                    if out is None:
+                        refused.append(kw["dt"])
+                    return out
 
-            solver.update = wrapped
-            solver.solve()
+                solver.solve_for_psi_squared = counting
+                orig_update = solver.update
+
+                def wrapped(state, running_state, dt, **kwargs):
+                    res = orig_update(state, running_state, dt, **kwargs)
+                    on_step(solver, dict(state), kwargs, res)
+                    return res
+
+                solver.update = wrapped
+                solver.solve()
     rep.count(stats["steps"])
     rep.nontrivial(("step-level", stats["retried_steps"] > 0))
     rep.coverage["step_level"] = stats
